@@ -797,13 +797,16 @@ def prop_cli(case):
         compare_gfa2(M.ModelDoc.from_doc(doc), doc["slen"], recs, text, "gfapy-convert")
         return {"nt": any(l[0] in "LC" for l in doc["lines"]), "cli": "gfa1"}
     extras = any(l[0] in "GFUX" for l in doc["lines"]) or case.get("internal")
+    amb = set(doc.get("ambiguous_paths") or [])
     if rc != 0:
-        if not extras:
+        if not extras and not amb:  # (an item list that can be read in more than one way may be refused, as in part gfa2)
             raise Violation("cli-refused", "gfapy-convert refuses a convertible GFA2 graph: %s\n%s" % (err[-400:], "\n".join(lines)))
         return {"nt": True, "cli": "gfa2-refused"}
     recs = parse_out(text, "gfa1", "gfapy-convert output")
-    got = canon_gfa1_for_roundtrip([x for x in recs if x.rt != "#"])
+    got = canon_gfa1_for_roundtrip([x for x in recs if x.rt != "#" and not (x.rt == "P" and x.pos[0] in amb)])
     want = Counter(_tuplify(e) for e in case["expect"])
+    if amb:
+        want = Counter({k: v for k, v in want.items() if not (k[0] == "P" and k[1] in amb)})
     if got != want:
         raise Violation("cli-gfa2-to-gfa1", "gfapy-convert result differs from the model: %s\n-- source --\n%s\n-- result --\n%s" % (
             G.counter_diff(want, got), "\n".join(lines), text))
